@@ -169,7 +169,7 @@ ENGINE_ASSUME = ("the property oracle compares the implementation's answers / ou
 PROPS['C01'] = {
     'exhaustive_in': {'quick': True, 'thorough': True},
     'module': 'SuironVerif.Props.C01',
-    'theorems': ['Suiron.C01.C01_pure', 'Suiron.C01.C01_exact', 'Suiron.C01.request_independent_of_fuel', 'Suiron.C01.C01_pure_node', 'Suiron.C01.askN_sound', 'Suiron.C01.answers_are_derivable_partial', 'Suiron.C01.sigma_const_partial', 'Suiron.C01.format_var_partial', 'Suiron.C01.format_skip_nonvar_partial', 'Suiron.C01.machine_answer_partial'],
+    'theorems': ['Suiron.C01.C01_pure', 'Suiron.C01.C01_exact', 'Suiron.C01.C01_full_language', 'Suiron.C01.C01_full_language_exact', 'Suiron.C01.okG_of_pureG', 'Suiron.C01.request_independent_of_fuel', 'Suiron.C01.C01_pure_node', 'Suiron.C01.askN_sound', 'Suiron.C01.answers_are_derivable_partial', 'Suiron.C01.sigma_const_partial', 'Suiron.C01.format_var_partial', 'Suiron.C01.format_skip_nonvar_partial', 'Suiron.C01.machine_answer_partial'],
     'oracles': ['C01'],
     'suites': {
         'quick': engine_runs('C01', 1500, [['--pure'], ['--pure', '--print', '2'], []], what='answers'),
@@ -202,14 +202,15 @@ PROPS['C02'] = {
     'design_ref': '5.2',
     'assumptions': ["the theorems are about the engine model: a cut marks every node it passes on its way up, a marked node is never entered again and "
                     "changes nothing, a call whose body cut and failed tries no later clause, a call never passes a cut on to its caller; the refinement to the "
-                    "reference machine with cut and groups (Spec/GroupMachine.lean) is proved for rule bodies without not(...) and time(...)",
+                    "reference machine with cut and groups (Spec/GroupMachine.lean) is proved for rule bodies in which no `!` is written directly inside not(...) or time(...)",
                     ENGINE_ASSUME],
 }
 PROPS['C03'] = {
     'exhaustive_in': {'quick': True, 'thorough': True},
     'module': 'SuironVerif.Props.C03',
     'theorems': ['Suiron.C03.not_once', 'Suiron.C03.not_hides_bindings', 'Suiron.C03.not_iff', 'Suiron.C03.not_then_exhausted',
-                 'Suiron.C03.inner_search_is_reference', 'Suiron.C03.C03_reference', 'Suiron.C03.C03_iff'],
+                 'Suiron.C03.inner_search_is_reference', 'Suiron.C03.C03_reference', 'Suiron.C03.C03_iff',
+                 'Suiron.C03.inner_search_is_reference_with_cut', 'Suiron.C03.C03_reference_with_cut', 'Suiron.C03.C03_iff_with_cut'],
     'oracles': ['C03'],
     'suites': {
         'quick': engine_runs('C03', 1500, [['--not', '8', '--cut', '0'], ['--not', '6', '--cut', '2'], ['--not', '8', '--print', '3', '--cut', '0'], ['--not', '8', '--cut', '4', '--cut-in-not']], what='both'),
@@ -219,8 +220,9 @@ PROPS['C03'] = {
             "negated goal (for those programs only implementation and engine model are compared: the reference machine does not define a cut under not).",
     'design_ref': '5.3',
     'assumptions': ["`G has no answer` is proved against the reference machine (Spec/PureMachine.lean) for every cut-free G over a cut-free knowledge base "
-                    "(C03_reference); for a G that contains `!` or time(...) it is read on the engine model (G's node, asked once, reports none) and the "
-                    "agreement with the reference search is decided by the machine comparison", ENGINE_ASSUME],
+                    "(C03_reference), and against the machine with cut, groups, negation and timing (Spec/GroupMachine.lean) for every G in which no `!` is "
+                    "written, over knowledge bases whose clauses may cut (C03_reference_with_cut); for a G with a `!` written directly inside it is read on the "
+                    "engine model (G's node, asked once, reports none) and the agreement with the reference search is decided by the machine comparison", ENGINE_ASSUME],
 }
 PROPS['C04'] = {
     'exhaustive_in': {'quick': True, 'thorough': True},
@@ -609,9 +611,11 @@ LEVEL_TEXT = {
            'reference machine (depth-first, left-to-right, clause-order resolution as a stack of goals/try/negation frames): successive requests return exactly the machine\'s '
            'answers, in order, with multiplicity, and none for ever once it is exhausted, with the same output at every point - and the machine is deterministic, so these are '
            'THE answers of the reference (C01_exact); the outcome of a request does not depend on the fuel of the model; (2) for ALL programs every answer ever '
-           'returned is an SLD-derivable answer (soundness); (3) node substitution sets are immutable (no leakage between alternatives); the answer formatting. PARTIAL: '
-           'the refinement for programs with `!` or time - decided by running implementation, engine model and the marker machine (executable Lean) on the same '
-           'generated programs on every check, request by request (substitution sets with ids, counters, stdout) resp. answer by answer.',
+           'returned is an SLD-derivable answer (soundness); (3) node substitution sets are immutable (no leakage between alternatives); the answer formatting; (4) the same '
+           'refinement, with determinism, for the whole language - `!`, conjunctions and disjunctions nested to any depth, not, time - against the machine with cut, groups, negation '
+           'and timing (C01_full_language, C01_full_language_exact; only a `!` written directly inside not(...) / time(...) is excluded, and the cut-free fragment is shown to lie inside). '
+           'Implementation, engine model and the marker machine (executable Lean) also run on the same generated programs on every check, request by request '
+           '(substitution sets with ids, counters, stdout) resp. answer by answer.',
     'C02': 'Proved in Lean on the engine model for all nodes, knowledge bases, states and fuel: `!` marks its node and raises the cut flag; every node that '
            'passes the flag on is marked when it returns; a marked node answers none and changes nothing (no retry to the left of the cut, no answer '
            'beyond the one being derived); a call whose body cut and then failed tries no later clause; a call never reports a cut to its caller '
@@ -620,15 +624,16 @@ LEVEL_TEXT = {
            'reference machine with cut and groups (refinement C02_groups; the machine is deterministic: C02_groups_exact), and on that machine a cut at any depth '
            'leaves exactly the stack that was there when its clause was chosen (no later clause, no other member of an enclosing disjunction, no alternative '
            'to its left, caller untouched), as does the end of every group and of the body in which a cut ran; the same against a smaller machine for flat '
-           'bodies. `!` mixed with not(...) or time(...): decided by comparing implementation, engine model and executable reference machine on every run.',
+           'bodies. not(...) and time(...) are part of that machine; only a `!` written directly inside them is decided by comparing implementation, engine model and executable reference machine on every run.',
     'C03': 'Proved in Lean: the first request on a not-node asks G once and returns its own, unchanged substitution set iff G has no '
            'answer, none otherwise; afterwards the node is exhausted; for every cut-free G and knowledge base `G has no answer` is the reference search for G running '
-           'to the empty stack, and `none` is that search showing an answer, as equivalences (C03_iff: the reference machine is deterministic; negation is part of the refinement theorem of C01). G containing `!` / time: '
-           'agreement with the reference search is decided by the machine comparison.',
+           'to the empty stack, and `none` is that search showing an answer, as equivalences (C03_iff: the reference machine is deterministic; negation is part of the refinement theorem of C01); '
+           'the same equivalences (C03_iff_with_cut) for every G of the full language in which no `!` is written, over knowledge bases whose clauses cut, against the machine with cut, groups, '
+           'negation and timing. G with a `!` written directly inside: agreement with the reference search is decided by the machine comparison.',
     'C04': 'Proved in Lean: on the cut-free fragment (negation included) the text written up to every request equals the text the reference machine has written at that point of '
            'its depth-first run (output component of the refinement theorem: once per execution, in execution order, retries included); a built-in node runs its effect '
            'on the first request only and appends exactly its text; print interleaves its arguments with the pieces of the format (or concatenates without markers) and '
-           'shows bound values. The same refinement, output included, is proved for programs with `!` in conjunctions and disjunctions nested to any depth (machine with cut and groups). `!` mixed with not(...), and time(...): order and multiplicity are decided by comparing captured stdout per request with the reference machine.',
+           'shows bound values. The same refinement, output included, is proved for the whole language: `!` in conjunctions and disjunctions nested to any depth, not, time (machine with cut, groups, negation and timing); only a `!` written directly inside not(...) / time(...) is excluded - there order and multiplicity are decided by comparing captured stdout per request with the reference machine.',
     'C05': 'Proved in Lean for all nodes, knowledge bases, global states and fuel values: a request that answers none leaves an exhausted node, and an '
            'exhausted node answers none again with the global state (output, counter, ticks) unchanged, for any number of further requests.',
     'C06': 'Proved in Lean for all well-formed function-free operands, substitution sets, substitutions and fuel: a successful unification keeps every earlier binding verbatim '
